@@ -17,7 +17,8 @@ def main():
         pid = p["id"]
         if pid in NOT_APPLICABLE:
             na.append({"property_id": pid, "reason": NOT_APPLICABLE[pid]}); continue
-        if not os.path.exists(os.path.join(HERE, "units", pid.lower() + ".py")):
+        ready = [l.strip() for l in open(os.path.join(HERE, "units", "READY")) if l.strip()]
+        if pid not in ready or not os.path.exists(os.path.join(HERE, "units", pid.lower() + ".py")):
             na.append({"property_id": pid, "reason": PENDING}); continue
         u = importlib.import_module("units." + pid.lower())
         m = u.META
